@@ -251,6 +251,25 @@ def _exhausted_pred(ff, folder, test, pol, after_delete, delnode):
                                f"{'not set' if (max(0, wrong[0] - 7) if before else wrong[0]) == 0 else 'set'}: the client sees "
                                f"{'an extra empty segment / no end' if True else ''} (predicate `{src(test)}`, wrong for remaining in {wrong[:6]})")
             return True, f"predicate `{src(test)}` evaluated for 0..30 remaining bytes"
+    # a comparison on the size of the prefix just taken: size = len(data), data = self._buffer[:7]
+    for nm in names:
+        d = ff.one_def(nm)
+        if d is not None and isinstance(d, ast.Call) and dotted(d.func) == "len" and isinstance(d.args[0], ast.Name):
+            dd = ff.one_def(d.args[0].id)
+            if dd is not None and src(dd) == "self._buffer[:7]":
+                wrong = []
+                for r in range(0, 31):
+                    try:
+                        v = bool(folder.fold(test, Scope(ff.scope.mod, ff.scope.cls, {nm: min(r, 7)})))
+                    except Unfoldable as e:
+                        return None, f"predicate does not evaluate: {e}"
+                    v = v if pol else not v
+                    if v != (max(0, r - 7) == 0):
+                        wrong.append(r)
+                if wrong:
+                    return False, (f"with {wrong[0]} bytes remaining before this segment ({min(wrong[0], 7)} sent) the last-segment flag is "
+                                   f"{'not set although nothing is left' if max(0, wrong[0] - 7) == 0 else 'set although data remains'} (predicate `{src(test)}`, wrong for remaining in {wrong[:6]})")
+                return True, f"predicate `{src(test)}` evaluated for 0..30 remaining bytes"
     return None, f"last-segment predicate `{src(test)}` not recognised"
 
 
